@@ -320,6 +320,9 @@ func searchIndex(p *thrift.BinaryProtocol, id int, isList bool) (tt thrift.Type,
 	if err != nil {
 		return 0, start, errNode(meta.ErrRead, "", err)
 	}
+	if id < 0 {
+		return 0, start, errNode(meta.ErrInvalidParam, fmt.Sprintf("negative index %d", id), nil)
+	}
 	if id >= size {
 		if isList {
 			return thrift.LIST, p.Read, errNotFound
@@ -524,7 +527,7 @@ func (self Node) Index(i int) (v Node) {
 	if it.Err != nil {
 		return errNode(meta.ErrRead, "", it.Err)
 	}
-	if i >= it.size {
+	if i < 0 || i >= it.size {
 		v = errNode(meta.ErrInvalidParam, fmt.Sprintf("index %d exceeds list/set bound", i), nil)
 		goto ret
 	}
